@@ -406,9 +406,19 @@ class Repo:
         out: List[FuncInfo] = [fi]
         seen = {fi.key}
         work = [fi]
+        inlined_into: Dict[int, List[str]] = {}
+        for rec in getattr(self, 'normalized_helpers', []):
+            if len(rec) >= 3:
+                inlined_into.setdefault(rec[2], []).append(rec[1])
         while work:
             f = work.pop()
             cands: List[FuncInfo] = []
+            # helpers whose body normalisation already moved into f: their definitions belong to f as well
+            for hk in inlined_into.get(id(f.node), []):
+                try:
+                    cands.append(self.func(*hk.split(':', 1)))
+                except AnalysisError:
+                    pass
             for n in ast.walk(f.node):
                 if isinstance(n, ast.Call):
                     fn = n.func
